@@ -15,7 +15,7 @@ def py_denote(s):
     if neg:
         t = t[1:]
     if t == "zero":
-        return 0
+        return None if neg else 0          # the keyword takes no sign
     if t.startswith("0x"):
         digs, r = t[2:], 16
     elif t.startswith("0b"):
@@ -105,6 +105,9 @@ CONTEXTS = [("li t0, {}", 7, "imm"), ("addi t0, t1, {}", 13, "imm"), ("lui t0, {
             ("lw t0, {}(sp)", 7, "off"), ("sw t0, {}(sp)", 7, "off"), (".word {}", 6, "data"),
             (".byte 1, {}", 9, "data2"), ("csrrwi t0, 0x300, {}", 18, "imm"), ("csrrw t0, {}, t1", 10, "csr"),
             ("csrrsi t0, {}, 3", 11, "csr")]
+# a sign inside a literal, two signs: malformed in every notation (the radix parsers of the standard library
+# accept one leading '+', so these are only kept out by what the lexer lets through)
+PLUS_MALFORMED = ["-+5", "0x+10", "-0b+11", "+-5", "0X+1f", "0b+1", "-0x+7f", "++1"]
 SYMCH = set("abcdefghijklmnopqrstuvwxyzABCDEFGHIJKLMNOPQRSTUVWXYZ0123456789_-")
 
 
@@ -135,6 +138,7 @@ def gen_statements(rng, n):
              "0-1", "5-", "0x0x1", "-0x", "0x-1", "99999999999999999999", "0xFFFFFFFFF", "-0b1" + "0" * 31,
              "-0b1" + "0" * 30 + "1", "0b" + "1" * 33]
     lits += list(CSR_NAMES) + ["CYCLE", "Time", "mstatus", "cyclee"]
+    lits += PLUS_MALFORMED
     chars = ["a", "Z", "0", " ", "~", "#", '"', ",", "(", ":", "\u00e9", "\u20ac", "\U0001f600",
              "\\n", "\\t", "\\r", "\\b", "\\f", "\\0", "\\\\", "\\'", '\\"',
              "\\u0041", "\\u00e9", "\\uFFFF", "\\uffff", "\\uD800", "\\udfff", "\\ue000", "\\u0000",
@@ -147,7 +151,9 @@ def gen_statements(rng, n):
     out = []
     for l in lits:
         for tmpl, col, field in (CONTEXTS if len(out) < 4000 else rng.sample(CONTEXTS, 3)):
-            if not set(l) <= SYMCH or not l:
+            if l in PLUS_MALFORMED:
+                want = "reject"            # wherever the '+' ends up (no symbol character today): no value, an error
+            elif not set(l) <= SYMCH or not l:
                 want = "skip"
             elif field == "csr" and l.lower() in CSR_NAMES:
                 want = CSR_NAMES[l.lower()]
@@ -221,6 +227,12 @@ def through_parser(res, rng, tier):
                 what = "the parser does not return normally"
             elif want == "skip":
                 pass
+            elif want == "reject":
+                got = value_of(blk, field)
+                if got is not None:
+                    what = f"malformed literal (a sign inside it) is read as {got}"
+                elif not any(x.startswith("PERR") for x in blk):
+                    what = "malformed literal (a sign inside it): no parse error is reported"
             elif want is None:
                 got = value_of(blk, field)
                 perr = [x for x in blk if x.startswith("PERR")]
@@ -240,7 +252,7 @@ def through_parser(res, rng, tier):
                 first = {"statement": st, "literal": lit, "profile": prof, "what": what, "impl": blk, "model": m,
                          "expected": want, "no_input": what.startswith("parser model"),
                          "replay_cmd": f"echo 'parse 1 {hx('m.s')} {hx(st)}' | {RVH_DEBUG if prof == 'debug' else RVH_RELEASE}"}
-        tally["not_judged_by_oracle" if want == "skip" else "rejected" if want is None else "accepted"] += 1
+        tally["not_judged_by_oracle" if want == "skip" else "rejected" if want in (None, "reject") else "accepted"] += 1
     res.notes["through_parser_statements"] = len(cases)
     res.notes["through_parser_distribution"] = tally
     return first, len(cases)
